@@ -80,12 +80,13 @@ class AsyncPolicy:
     ) -> T:
         ctx = ExecutionContext.create(self.circuit_breaker, on_metric, on_log, operation)
 
-        # Pre-flight abort check (no retry configured)
-        if self.retry is None and check_abort_no_retry(ctx, abort_if):
-            raise AbortRetryError()
-
         # Circuit breaker check
         check_breaker(ctx)
+
+        # Pre-flight abort check (no retry configured); the cancel it records must
+        # settle a call the breaker has admitted, not somebody else's probe.
+        if self.retry is None and check_abort_no_retry(ctx, abort_if):
+            raise AbortRetryError()
 
         try:
             if self.retry is None:
@@ -219,16 +220,17 @@ class AsyncPolicy:
     ) -> RetryOutcome[T]:
         ctx = ExecutionContext.create(self.circuit_breaker, on_metric, on_log, operation)
 
-        # Pre-flight abort check (no retry configured)
-        if self.retry is None and check_abort_no_retry(ctx, abort_if):
-            return build_aborted_outcome(ctx)
-
         # Circuit breaker check
         if ctx.breaker is not None:
             decision = ctx.breaker.allow()
             ctx.emit_breaker_event(decision.event, decision.state)
             if not decision.allowed:
                 return build_circuit_open_outcome(ctx, decision.state.value)
+
+        # Pre-flight abort check (no retry configured); the cancel it records must
+        # settle a call the breaker has admitted, not somebody else's probe.
+        if self.retry is None and check_abort_no_retry(ctx, abort_if):
+            return build_aborted_outcome(ctx)
 
         # Delegate to retry if configured
         if self.retry is not None:
